@@ -173,8 +173,15 @@ def gen_file(rng, n, nkeycols, nfeat=3, mult=(1, 6), file_idx=0, label_enc="pm1"
         cols["feat%d" % j] = vals
     npep = npep or max(2, n // 3)
     cols["Peptide"] = ["K.PEP%dK.A" % rng.randint(0, npep) for _ in range(n)]
+    # level values: own name space per level, or (half of the tables with levels) strings shared between the level columns
+    # and the Peptide column — an unmodified peptide has the same string as Peptide, ModifiedPeptide and PeptideGroup —
+    # so that keys of different levels coincide as strings
+    shared_names = bool(levels) and rng.random() < 0.5
     for lv in levels:
-        cols[lv] = ["%s%d" % (lv[:2].lower(), rng.randint(0, max(1, npep // 2))) for _ in range(n)]
+        if shared_names:
+            cols[lv] = [cols["Peptide"][i] if rng.random() < 0.5 else "K.PEP%dK.A" % rng.randint(0, npep) for i in range(n)]
+        else:
+            cols[lv] = ["%s%d" % (lv[:2].lower(), rng.randint(0, max(1, npep // 2))) for _ in range(n)]
     cols["Proteins"] = ["prot%d" % rng.randint(0, 5) for _ in range(n)]
     return {"columns": list(cols.keys()), "data": cols, "targets": tg}
 
